@@ -208,8 +208,8 @@ func TestC17_Probes(t *testing.T) {
 			continue
 		}
 		c.Label("probe-reproduces:" + p.id)
-		if seen[p.id] {
-			continue
+		if seen[p.id] || ev.Shard() != 0 {
+			continue // reported once, by shard 0
 		}
 		seen[p.id] = true
 		if ev.KnownActive(p.id) {
